@@ -366,6 +366,10 @@ func c04Judge(cs reqCase, o *reqObs) *core.Violation {
 			sig := "caller-cancel-not-sent-to-responder"
 			if len(o.wireReqs) > 0 && o.wireReqs[0] == "Cancel" {
 				sig = "caller-cancel-overtaken-by-the-request/cancel-sent-before-the-request-it-cancels"
+			} else if cs.Sched {
+				// same race, both requests in one outgoing message: the builder keeps one request per id and the
+				// New request (added last) replaces the Cancel
+				sig = "caller-cancel-overtaken-by-the-request/cancel-replaced-by-the-request-in-the-same-message"
 			}
 			return v(sig, fmt.Sprintf("the request went out to the responder but no cancel for its id followed it; requests on the wire in order: %v", o.wireReqs))
 		}
@@ -515,10 +519,11 @@ func init() {
 			}
 			if json.Unmarshal(raw, &w) == nil && w.Label != nil && w.Label.Sched {
 				o, _ := reqRun(vsched.Config{Prefix: w.Prefix}, *w.Label)
+				det := fmt.Sprintf(" [closed=%v errs=%v nodes=%d termDelivered=%v cancelWhenDone=%v responderDone=%v wire=%v state=%q]", o.closed, o.errs, o.visits, o.termDelivered, o.cancelWhenDone, o.responderDone, o.wireReqs, o.stateLeft)
 				if v := c04Judge(*w.Label, o); v != nil {
-					return v.Signature + ": " + v.What
+					return v.Signature + ": " + v.What + det
 				}
-				return "ok"
+				return "ok" + det
 			}
 			var cs reqCase
 			if err := json.Unmarshal(raw, &cs); err != nil {
